@@ -96,8 +96,10 @@ var roundReq = []string{"Add:tie-up", "Add:tie-down", "Add:carry", "Sub:fits", "
 var checks = map[string]*check{
 	"C01": {
 		id: "C01", models: []model{mcBigNat, mcRound, mcSum}, trace: "Trace_Core", batch: 4,
-		gen:         func(g *gen.G, thor bool) []gen.Program { return gen.Round(g, n(thor, 1500, 40000)) },
-		rule:        "cases = Add/Sub/Mul/Quo/Set/SetPrec/Neg/Abs calls on operands built from adversarial digit patterns (ties, near-ties, all-nines carries, cancellation, exponent gaps around the precision, exact quotients by multi-word 9/0-run divisors, exponents within 60 of the int32 limits) x 6 modes x aliasing shapes x receiver histories; a case is non-trivial/distinct by its specification branch cell (operation x rounding branch x operand forms), counted by TLC in the trace specification's cov variable",
+		gen: func(g *gen.G, thor bool) []gen.Program {
+			return append(gen.Round(g, n(thor, 1500, 40000)), gen.BigQuo(g, n(thor, 10, 150))...)
+		},
+		rule:        "cases = Add/Sub/Mul/Quo/Set/SetPrec/Neg/Abs calls on operands built from adversarial digit patterns (ties, near-ties, all-nines carries, cancellation, exponent gaps around the precision, exact quotients by multi-word 9/0-run divisors, exponents within 60 of the int32 limits; quotients by 100-140 word divisors (5000..0999..9, 99..900..01 patterns) at precisions of 1000-5000 digits into dirty receivers) x 6 modes x aliasing shapes x receiver histories; a case is non-trivial/distinct by its specification branch cell (operation x rounding branch x operand forms), counted by TLC in the trace specification's cov variable",
 		assumptions: commonAssumptions, req: roundReq,
 	},
 	"C03": {
@@ -127,7 +129,7 @@ var checks = map[string]*check{
 			{mod: "MC_Algo", quick: map[string]string{"Bs": "10", "ULen": "3", "VLen": "2"}, thorough: map[string]string{"Bs": "10", "ULen": "4", "VLen": "3"}},
 			{mod: "MC_Algo", quick: map[string]string{"Bs": "4", "ULen": "5", "VLen": "3", "AddBackWraps": "FALSE"}, expectViolation: "Inv"}},
 		gen: func(g *gen.G, thor bool) []gen.Program {
-			return append(gen.Nat(g, n(thor, 24, 160), n(thor, 40, 120)), gen.BigOps(g, n(thor, 10, 60))...)
+			return append(append(gen.Nat(g, n(thor, 24, 160), n(thor, 40, 120)), gen.BigOps(g, n(thor, 10, 60))...), gen.BigQuo(g, n(thor, 10, 150))...)
 		},
 		rule:        "dec.mul / dec.sqr / dec.div through the verif hooks: operand lengths 1..350 words (1000 in thorough), balanced, unbalanced and 1-3 word multipliers, word alphabet {0, 1, base-1, base-2, base/2, base/10, random}, exact and nearly exact quotients u = q*v (+0..2, +v-1) by patterned divisors, divisors >= 100 words (recursive division), dirty destination buffers, scratch buffers poisoned on get and put, under 8 threshold assignments (Karatsuba 2..40, squaring (2,4) (3,3) (10,50) ...); TLC checks Val(z) = Val(x)*Val(y), u = q*v + r with r < v and normalisation with exact arithmetic and classifies each call by code path; plus Mul/Quo through the public API on the same sizes with lowered thresholds",
 		assumptions: commonAssumptions,
